@@ -4,7 +4,6 @@ import (
 	"hash/fnv"
 	"sort"
 	"sync"
-	"sync/atomic"
 
 	"github.com/prometheus/client_golang/prometheus"
 
@@ -22,7 +21,7 @@ type ConstCollector interface {
 }
 
 type GroupedCounterMetric struct {
-	Value       uint64
+	Value       float64
 	LabelValues []string
 	Group       string
 }
@@ -64,12 +63,12 @@ func (c *ConstCounterCollector) Add(group string, value float64, labels map[stri
 	storedMetric, ok := c.collection[labelsHash]
 	if !ok {
 		storedMetric = GroupedCounterMetric{
-			Value:       uint64(value),
+			Value:       value,
 			LabelValues: labelValues,
 			Group:       group,
 		}
 	} else {
-		atomic.AddUint64(&storedMetric.Value, uint64(value))
+		storedMetric.Value += value
 	}
 
 	c.collection[labelsHash] = storedMetric
@@ -84,7 +83,7 @@ func (c *ConstCounterCollector) Collect(ch chan<- prometheus.Metric) {
 	defer c.mtx.RUnlock()
 
 	for _, s := range c.collection {
-		ch <- prometheus.MustNewConstMetric(c.desc, prometheus.CounterValue, float64(s.Value), s.LabelValues...)
+		ch <- prometheus.MustNewConstMetric(c.desc, prometheus.CounterValue, s.Value, s.LabelValues...)
 	}
 }
 
